@@ -191,6 +191,11 @@ impl Tzif {
     pub fn read_tzif(identifier: &str) -> TemporalResult<Self> {
         let mut path = PathBuf::from(ZONEINFO_DIR);
         path.push(identifier);
+        // A name that is a directory of the database, or continues below one of its files,
+        // is no more an available identifier than one that is missing.
+        if !path.is_file() {
+            return Err(TemporalError::range().with_message("Unknown time zone identifier."));
+        }
         Self::from_path(&path)
     }
 
